@@ -146,8 +146,12 @@ class WorkSite:
                 continue
             if self._is_work_value(inner) and self.variants:
                 # BlockRet switch (payload of Ok)
-                if self.ret_switch is None:
+                # several switches can test the same work() value (`matches!(ret, BlockRet::Pending)` ahead of the match):
+                # the match that decides what the loop does next is the one naming the most variants (first on a tie)
+                n = len([1 for b, v in switch_edges(body, s) if v is not None])
+                if self.ret_switch is None or n > self._ret_switch_n:
                     self.ret_switch = s
+                    self._ret_switch_n = n
                     self.arms = discr_switch_arms(body, self.facts, s, self.variants)
 
     def complete(self):
